@@ -57,10 +57,7 @@ func (s *scratch) laneInto(l *lane, dst *big.Int) *big.Int {
 			acc[k], c = add64(acc[k], 0, c)
 		}
 	}
-	for i := range acc {
-		s.words[i] = big.Word(acc[i])
-	}
-	dst.SetBits(append(dst.Bits()[:0], s.words[:5]...))
+	dst.SetBits(append(dst.Bits()[:0], s.fillWords(acc[:])...))
 	return s.modP(dst)
 }
 
